@@ -203,7 +203,7 @@ fn reference(cr: &str, lines: &[LineT], n: usize, fp: &Factors, extra: &[(String
     } else {
         epus_t = (0..n).map(|t| f_t[t] * use_t[t].min_(prod_t[t])).collect();
         for (ps, p) in &prod_j {
-            let used: Vec<F> = (0..n).map(|t| epus_t[t] * if prod_t[t] > k(1e-3) { p[t] / prod_t[t] } else { zero }).collect();
+            let used: Vec<F> = (0..n).map(|t| epus_t[t] * if prod_t[t] > zero { p[t] / prod_t[t] } else { zero }).collect();
             epus_j.push((ps.clone(), used));
         }
     }
